@@ -15,11 +15,11 @@ MAX_TRACES = 4000
 
 
 def describe(cfg, key):
-    return [cfg.calls[k - 1] for k in key]
+    return [cfg.calls[k - 1] for k in engine.calls_of(key)]
 
 
 def signature(pred, cfg, key, outs):
-    c = dict(cfg.calls[key[-1] - 1]) if key else {}
+    c = dict(cfg.calls[key[-1] - 1]) if len(key) > 1 else {}
     sig = {"pred": pred, "out": outs[-1] if outs else ""}
     for k, v in c.items():
         if isinstance(v, (str, int, bool)):
@@ -44,7 +44,7 @@ def run_config(prop, preds, cfg, tag, simulate=None, report=None):
     for key, (outs, rets, st, v) in expect.items():
         if not v:
             continue
-        if any(key[:n] in bad_prefix for n in range(1, len(key) + 1)):
+        if any(key[:n] in bad_prefix for n in range(2, len(key) + 1)):
             continue   # judged from the recorded trace instead
         for pred in v:
             if pred.startswith(tuple(preds)):
@@ -55,11 +55,10 @@ def run_config(prop, preds, cfg, tag, simulate=None, report=None):
     if mism:
         # every explored behaviour that extends a mismatching prefix is judged on real states
         keys = sorted(k for k in expect
-                      if any(k[:n] in bad_prefix for n in range(1, len(k) + 1)))
+                      if any(k[:n] in bad_prefix for n in range(2, len(k) + 1)))
         has_child = set(k[:-1] for k in keys)
         keys = [k for k in keys if k not in has_child][:MAX_TRACES]
-        devs = [expect[k][2]["dev"] for k in keys]
-        traces = [engine.record_trace(cfg, d, k) for d, k in zip(devs, keys)]
+        traces = [engine.record_trace(cfg, engine.dev_of(k), k) for k in keys]
         tres, reports = engine.trace_check(cfg, traces, os.path.join(work, "trace"))
         if not tres.ok:
             print(f"MACHINERY-FAILURE: trace validation failed on {tag}: {tres.errors[:3]}")
@@ -69,7 +68,7 @@ def run_config(prop, preds, cfg, tag, simulate=None, report=None):
         traces_checked = len(traces)
         seen = set()
         for r in reports:
-            key = keys[r["t"] - 1][:r["l"]]
+            key = keys[r["t"] - 1][:r["l"] + 1]
             if r["drift"]:
                 drift += 1
             for pred in r["v"]:
@@ -112,7 +111,8 @@ def decide(prop, preds, runs, tier, t0, level_note=""):
                 break
             path = os.path.join(WORK, prop, "replay", f"{tag}-{len(seen)}.json")
             with open(path, "w") as fh:
-                json.dump({"property": prop, "config": tag, "pred": pred, "history": list(key),
+                json.dump({"property": prop, "config": tag, "pred": pred, "dev": engine.dev_of(key),
+                           "history": list(engine.calls_of(key)),
                            "calls": describe(cfg, key), "outcomes": list(outs), "source": src,
                            "signature": sig}, fh, indent=1)
             print(f"VIOLATION property={prop} replay={path}")
